@@ -133,6 +133,14 @@ class QvmEval(EvaluationContext):
         self.global_vars = global_vars
         self.find_routine_func = find_routine_func
 
+    def get_node_routine(self, node):
+        # an expression given to the debugger is evaluated in the
+        # routine that is being executed
+        frame = self.cpu.cur_frame
+        if frame is None:
+            return self.main_routine
+        return self.find_routine_func(frame.code_start)
+
     def eval_lvalue(self, lvalue):
         frame = self.cpu.cur_frame
         routine = self.find_routine_func(frame.code_start)
